@@ -1,5 +1,6 @@
 import BSModel.Model.Text
 import BSModel.Model.Heap
+import BSModel.Model.Builder
 /-! C13 on the pointer heap — `Tag._all_strings` / `get_text` / `.string` as they really run: over
     `Tag.descendants` (the `next_element` chase of Model/Heap.lean, element.py `descendants` + `_last_descendant`)
     and over `contents`, on the heap every editing call and the parser write to.
@@ -60,5 +61,12 @@ def toNode (h : Heap) (L : Labels) : Nat → Nat → Node
 inductive HeapSoleChain (h : Heap) : Nat → Nat → Prop
   | here {s} : (h.kind s).isTag = false → HeapSoleChain h s s
   | down {n k s} : (h.kind n).isTag = true → h.kids n = [k] → HeapSoleChain h k s → HeapSoleChain h n s
+
+/-- the configuration C03's builder machine (Model/Builder.lean: `pushTag`/`popTag` with both context stacks,
+    `_popToTag`, `endData`, `string_container`) sees for a `string_containers` table; string classes travel as
+    `StrClass.code` (0 = NavigableString) -/
+def builderCfg (cont : List (PStr × StrClass)) (preserve : BS.Builder.Name → Bool) (ascii : List Nat)
+    (root : BS.Builder.Name) : BS.Builder.Cfg :=
+  { preserve := preserve, container := fun n => (cont.lookup n).map StrClass.code, asciiSpaces := ascii, rootName := root }
 
 end BS.Text
